@@ -12,31 +12,47 @@ EXTENDS Naturals, Integers, Sequences, FiniteSets, TLC, SequencesExt
 CONSTANTS MsgLens,      \* sequence of payload lengths of the messages to send, e.g. <<1, 2>>
           MaxChunk,     \* reads / writes move 1..MaxChunk bytes, or are Pending
           PendingBudget,\* how many Pending results the byte stream may inject
-          ExportSched, FixF2
+          ExportSched, FixF2,
+          IoBuf         \* the byte stream buffers internally (BufWriter, TLS, compression): its poll_flush does real work
 
-VARIABLES nsent, wbuf, pipe, rbuf, delivered, wclosed, eos, pend, sched
-vars == <<nsent, wbuf, pipe, rbuf, delivered, wclosed, eos, pend, sched>>
+VARIABLES nsent, wbuf, hold, pipe, rbuf, delivered, wclosed, eos, pend, flushed, sched
+vars == <<nsent, wbuf, hold, pipe, rbuf, delivered, wclosed, eos, pend, flushed, sched>>
+(* hold: bytes the byte stream accepted (poll_write) but has not passed on yet; flushed: how many messages *)
+(* had been sent when the sink last reported a completed flush                                            *)
 
 Frame(i) == <<<<"len", MsgLens[i], i>>>> \o [k \in 1..MsgLens[i] |-> <<"byte", i, k>>]
 Rec(a) == IF ExportSched THEN sched' = Append(sched, a) ELSE sched' = sched
 
-Init == /\ nsent = 0 /\ wbuf = <<>> /\ pipe = <<>> /\ rbuf = <<>> /\ delivered = <<>>
-        /\ wclosed = FALSE /\ eos = FALSE /\ pend = 0 /\ sched = <<>>
+Init == /\ nsent = 0 /\ wbuf = <<>> /\ hold = <<>> /\ pipe = <<>> /\ rbuf = <<>> /\ delivered = <<>>
+        /\ wclosed = FALSE /\ eos = FALSE /\ pend = 0 /\ flushed = 0 /\ sched = <<>>
 
 (* Sink::start_send: the frame is encoded into the write buffer *)
 Send == /\ nsent < Len(MsgLens) /\ ~wclosed
         /\ nsent' = nsent + 1 /\ wbuf' = wbuf \o Frame(nsent + 1)
         /\ Rec([a |-> "send"])
-        /\ UNCHANGED <<pipe, rbuf, delivered, wclosed, eos, pend>>
+        /\ UNCHANGED <<hold, pipe, rbuf, delivered, wclosed, eos, pend, flushed>>
 
-(* poll_write accepts at most n bytes *)
+(* poll_write accepts at most n bytes (into the byte stream's own buffer when it has one) *)
 Write(n) == /\ wbuf # <<>>
             /\ LET k == IF n < Len(wbuf) THEN n ELSE Len(wbuf) IN
-               /\ pipe' = pipe \o SubSeq(wbuf, 1, k) /\ wbuf' = SubSeq(wbuf, k + 1, Len(wbuf))
+               /\ IF IoBuf THEN hold' = hold \o SubSeq(wbuf, 1, k) /\ UNCHANGED pipe
+                           ELSE pipe' = pipe \o SubSeq(wbuf, 1, k) /\ UNCHANGED hold
+               /\ wbuf' = SubSeq(wbuf, k + 1, Len(wbuf))
             /\ Rec([a |-> "w", n |-> n])
-            /\ UNCHANGED <<nsent, rbuf, delivered, wclosed, eos, pend>>
+            /\ UNCHANGED <<nsent, rbuf, delivered, wclosed, eos, pend, flushed>>
 WritePending == /\ wbuf # <<>> /\ pend < PendingBudget /\ pend' = pend + 1 /\ Rec([a |-> "w", n |-> 0])
-                /\ UNCHANGED <<nsent, wbuf, pipe, rbuf, delivered, wclosed, eos>>
+                /\ UNCHANGED <<nsent, wbuf, hold, pipe, rbuf, delivered, wclosed, eos, flushed>>
+(* the byte stream's poll_flush passes on at most n of the bytes it holds, or is Pending *)
+IoFlush(n) == /\ hold # <<>> /\ wbuf = <<>>
+              /\ LET k == IF n < Len(hold) THEN n ELSE Len(hold) IN
+                 /\ pipe' = pipe \o SubSeq(hold, 1, k) /\ hold' = SubSeq(hold, k + 1, Len(hold))
+              /\ Rec([a |-> "f", n |-> n])
+              /\ UNCHANGED <<nsent, wbuf, rbuf, delivered, wclosed, eos, pend, flushed>>
+IoFlushPending == /\ hold # <<>> /\ wbuf = <<>> /\ pend < PendingBudget /\ pend' = pend + 1 /\ Rec([a |-> "f", n |-> 0])
+                  /\ UNCHANGED <<nsent, wbuf, hold, pipe, rbuf, delivered, wclosed, eos, flushed>>
+(* Sink::poll_flush returns Ready(Ok): nothing is left in the frame buffer nor in the byte stream's buffer *)
+FlushDone == /\ wbuf = <<>> /\ hold = <<>> /\ flushed # nsent /\ flushed' = nsent
+             /\ UNCHANGED <<nsent, wbuf, hold, pipe, rbuf, delivered, wclosed, eos, pend, sched>>
 
 (* decode as many complete frames as the read buffer holds *)
 RECURSIVE Decode(_, _)
@@ -52,23 +68,26 @@ Read(n) == /\ pipe # <<>>
                   d == Decode(rbuf \o SubSeq(pipe, 1, k), delivered)
               IN /\ pipe' = SubSeq(pipe, k + 1, Len(pipe)) /\ rbuf' = d.buf /\ delivered' = d.out
            /\ Rec([a |-> "r", n |-> n])
-           /\ UNCHANGED <<nsent, wbuf, wclosed, eos, pend>>
+           /\ UNCHANGED <<nsent, wbuf, hold, wclosed, eos, pend, flushed>>
 ReadPending == /\ pipe # <<>> /\ pend < PendingBudget /\ pend' = pend + 1 /\ Rec([a |-> "r", n |-> 0])
-               /\ UNCHANGED <<nsent, wbuf, pipe, rbuf, delivered, wclosed, eos>>
+               /\ UNCHANGED <<nsent, wbuf, hold, pipe, rbuf, delivered, wclosed, eos, flushed>>
 
 (* the writing end is dropped / closed once everything is flushed *)
-CloseWriter == /\ nsent = Len(MsgLens) /\ wbuf = <<>> /\ ~wclosed /\ wclosed' = TRUE /\ Rec([a |-> "close"])
-               /\ UNCHANGED <<nsent, wbuf, pipe, rbuf, delivered, eos, pend>>
+CloseWriter == /\ nsent = Len(MsgLens) /\ wbuf = <<>> /\ hold = <<>> /\ ~wclosed /\ wclosed' = TRUE /\ Rec([a |-> "close"])
+               /\ UNCHANGED <<nsent, wbuf, hold, pipe, rbuf, delivered, eos, pend, flushed>>
 ReaderEos == /\ wclosed /\ pipe = <<>> /\ ~eos /\ eos' = TRUE /\ Rec([a |-> "eos"])
-             /\ UNCHANGED <<nsent, wbuf, pipe, rbuf, delivered, wclosed, pend>>
+             /\ UNCHANGED <<nsent, wbuf, hold, pipe, rbuf, delivered, wclosed, pend, flushed>>
 
-Next == Send \/ (\E n \in 1..MaxChunk : Write(n) \/ Read(n)) \/ WritePending \/ ReadPending \/ CloseWriter \/ ReaderEos
+Next == Send \/ (\E n \in 1..MaxChunk : Write(n) \/ Read(n) \/ IoFlush(n)) \/ WritePending \/ ReadPending \/ IoFlushPending
+        \/ FlushDone \/ CloseWriter \/ ReaderEos
 Spec == Init /\ [][Next]_vars
 
 (* C15: complete, unmodified, in order; end-of-stream after the last message *)
 Inv_Prefix == IsPrefix(delivered, [i \in 1..nsent |-> i])
 Inv_Eos == eos => (delivered = [i \in 1..Len(MsgLens) |-> i] /\ rbuf = <<>>)
 Inv_NoGarbage == \A i \in DOMAIN delivered : delivered[i] = i
+(* what the sink reported flushed is readable: once the reader has drained the pipe it has every such message *)
+Inv_Flushed == pipe = <<>> => Len(delivered) >= flushed
 
 (* ------------------------------------------------------------------ (ii) deadlines travel as remaining time *)
 Max0(x) == IF x > 0 THEN x ELSE 0
